@@ -185,6 +185,29 @@ Example C07_retry_bounded_nonvacuous :
   retry [Lost; Lost; Lost; Lost] [0; 0; 0; 0] 300000000 = UTimeout 2437500000 4.
 Proof. split; reflexivity. Qed.
 
+(* the global adaptive first-retry delay never leaves 300 ms .. 2 s, whatever replies are
+   timed how (so every query starts within that range) ... *)
+Theorem C07_adaptive_delay_in_range : forall initial cur dur attempts,
+  MIN_TIMEOUT <= cur <= MAX_TIMEOUT ->
+  MIN_TIMEOUT <= adapt initial cur dur attempts <= MAX_TIMEOUT.
+Proof. exact adapt_in_range. Qed.
+Check C07_adaptive_delay_in_range : forall initial cur dur attempts,
+  MIN_TIMEOUT <= cur <= MAX_TIMEOUT ->
+  MIN_TIMEOUT <= adapt initial cur dur attempts <= MAX_TIMEOUT.
+Print Assumptions C07_adaptive_delay_in_range.
+
+(* ... and with a first-retry delay in that range the loop ends within 50.75 s *)
+Theorem C07_retry_bounded_capped : forall fates jit t0, 0 < t0 <= MAX_TIMEOUT ->
+  elapsed (retry fates jit t0) <= 50750000000.
+Proof. exact retry_bounded_capped. Qed.
+Check C07_retry_bounded_capped : forall fates jit t0, 0 < t0 <= MAX_TIMEOUT ->
+  elapsed (retry fates jit t0) <= 50750000000.
+Print Assumptions C07_retry_bounded_capped.
+
+Example C07_adaptive_delay_late_reply :
+  adapt 300000000 300000000 1200000000 3 = MAX_TIMEOUT /\ adapt 300000000 300000000 1000000 2 = MIN_TIMEOUT.
+Proof. split; reflexivity. Qed.
+
 (* an answer taken by the loop is the reply to one of the transmissions made *)
 Theorem C07_retry_answer_genuine : forall fates jit t0 i a s,
   retry fates jit t0 = UAnswered i a s ->
